@@ -8,6 +8,9 @@
 /* ... the rest of this file ... */
 
 #include "chibi/eval.h"
+#if SEXP_USE_VERIF_HOOKS
+#include "verif_gc.h"
+#endif
 
 #if SEXP_USE_DEBUG_VM > 1
 static void sexp_print_stack (sexp ctx, sexp *stack, int top, int fp, sexp out) {
@@ -1144,6 +1147,9 @@ sexp sexp_apply (sexp ctx, sexp proc, sexp args) {
     }
     fuel = sexp_context_refuel(ctx);
     if (fuel <= 0) goto end_loop;
+#if SEXP_USE_VERIF_HOOKS
+    fuel = sexp_verif_next_slice(fuel);
+#endif
     if (sexp_context_waitp(ctx)) {
       fuel = 1;
       goto loop;  /* we were still waiting, try again */
